@@ -54,6 +54,21 @@ class Ctx:
     def note(self, k, v):
         self.info[k] = v
 
+    def only(self, rules):
+        """context manager: keep only obligations of the given rule ids among those recorded inside the block"""
+        ctx = self
+
+        class _F:
+            def __enter__(self_):
+                self_.n = len(ctx.obl)
+
+            def __exit__(self_, *a):
+                kept = [o for o in ctx.obl[self_.n:] if o["rule"] in rules or o["role"].startswith("anchor-missing")]
+                del ctx.obl[self_.n:]
+                ctx.obl.extend(kept)
+                return False
+        return _F()
+
 
 def fnkey(fn):
     if isinstance(fn, core.Body):
